@@ -251,6 +251,11 @@ def dir_files(path, cls):
         if len(path) % 2 == 0:   # every second package is machine-generated source; it also declares a parenthesised type
             a = "// Code generated by oapi-codegen version v2.4.1 DO NOT EDIT.\n\n" + a + "\ntype Count (int)\n"
         return {path + "/a.go": a}, ["SvcOne", "SvcTwo", "Helper"]
+    if cls == "cgo":
+        # one file of the package imports "C" (it is compiled from a generated copy, next to further generated files); it declares the first interface
+        first, rest = a.split("\n\ntype SvcTwo", 1)
+        first = first.replace("package %s\n" % pk, "package %s\n\n// #include <stdlib.h>\nimport \"C\"\n\nfunc Rand() int { return int(C.rand()) }\n" % pk, 1)
+        return {path + "/zz_native.go": first + "\n", path + "/a.go": "package %s\n\ntype SvcTwo%s" % (pk, rest)}, ["SvcOne", "SvcTwo", "Helper"]
     if cls == "testonly":
         return {path + "/a_test.go": a}, []
     if cls == "tagged":
@@ -329,7 +334,7 @@ def eval_tree(ctx, case):
     # a configured package whose directory holds no buildable Go file fails to load, unless it merely roots other configured packages
     final_pkgs = set(configured)
     for path, cls in case["dirs"].items():
-        if cls in ("go", "nomock") and path not in configured:
+        if cls in ("go", "nomock", "cgo") and path not in configured:
             anc = [a for a in rec_roots if path.startswith(a + "/")]
             for a in anc:
                 effa = cfgmodel.resolve([case["pkcfg"][a], root_cfg])
@@ -450,6 +455,12 @@ def fixed_tree_cases():
     cases.append({"kind": "tree", "i": 9801, "dirs": sdirs, "pkcfg": {"t/v%d/api" % (k + 1): sel[k] for k in range(4)}, "excl_root": None, "root_recursive": False})
     cases.append({"kind": "tree", "i": 9802, "dirs": sdirs, "pkcfg": {"t/v1": dict(sel[0], recursive=True), "t/v2": dict(sel[1], recursive=True), "t/v3": dict(sel[2], recursive=True)},
                   "excl_root": None, "root_recursive": False})
+    # fixed trees: a package one of whose files imports "C", discovered below a recursive package and configured itself
+    cdirs = {"t": "go", "t/native": "cgo", "t/native/sub": "go", "t/plain": "go"}
+    cases.append({"kind": "tree", "i": 9300, "dirs": cdirs, "excl_root": None, "root_recursive": False,
+                  "pkcfg": {"t": {"recursive": True, "all": True, "structname": "R0_{{.InterfaceName}}"}}})
+    cases.append({"kind": "tree", "i": 9301, "dirs": cdirs, "excl_root": None, "root_recursive": False,
+                  "pkcfg": {"t/native": {"include-interface-regex": "^Svc", "structname": "E0_{{.InterfaceName}}"}, "t/plain": {"all": True, "structname": "E1_{{.InterfaceName}}"}}})
     # fixed trees: `recursive: true` made only at the top level (config file / MOCKERY_RECURSIVE), inherited by one package and refused by another
     gdirs = {"t": "go", "t/a": "go", "t/a/b": "go", "t/c": "testonly", "u": "go", "u/x": "go", "u/x/y": "go"}
     for j, mode in enumerate(("file", "env")):
